@@ -826,3 +826,58 @@ fire('c20-file-rules-pop', 'C20',
        "            file_rule = RuleDefault(name, check_str)\n            self.file_rules.pop(name, None)\n            self.file_rules[name] = file_rule")], 'C20.PUBLISH')
 silent('c20-comment-only', 'C20',
        [(POL, "        self.use_conf = use_conf\n        self._need_check_rule = True\n        if overwrite:", "        self.use_conf = use_conf\n        # rebuild\n        self._need_check_rule = True\n        if overwrite:")])
+
+# ------------------------------------------------------------------ C13
+fire('c13-revert-f4-undef', 'C13',
+     [(POL, "        # A NotCheck wraps a single rule.\n        if isinstance(check, NotCheck):\n            return self._undefined_check(check.rule)\n\n", "")], 'C13.EXHAUSTIVE')
+fire('c13-revert-f4-cycle', 'C13',
+     [(POL, "        # A NotCheck wraps a single rule.\n        if isinstance(check, NotCheck):\n            return self._cycle_check(check.rule, seen)\n\n", "")], 'C13.EXHAUSTIVE')
+fire('c13-undef-no-children', 'C13',
+     [(POL, "        rules = getattr(check, 'rules', None)\n        if rules:\n            for rule in rules:\n                if self._undefined_check(rule):\n                    return True\n        return False",
+       "        return False")], 'C13.EXHAUSTIVE')
+fire('c13-undef-if-false', 'C13',
+     [(POL, "        rules = getattr(check, 'rules', None)\n        if rules:\n            for rule in rules:\n                if self._undefined_check(rule):",
+       "        rules = getattr(check, 'rules', None)\n        if not rules:\n            for rule in rules:\n                if self._undefined_check(rule):")], 'C13')
+fire('c13-undef-fold-negated', 'C13',
+     [(POL, "            for rule in rules:\n                if self._undefined_check(rule):\n                    return True\n        return False",
+       "            for rule in rules:\n                if self._undefined_check(rule):\n                    return False\n        return False")], 'C13.FOLD')
+fire('c13-shared-seen', 'C13',
+     [(POL, "                if self._cycle_check(rule, seen.copy()):", "                if self._cycle_check(rule, seen):")], 'C13.CYCLE')
+fire('c13-no-mark', 'C13',
+     [(POL, "            seen.add(check.match)\n", "")], 'C13.CYCLE')
+fire('c13-revisit-false', 'C13',
+     [(POL, "            if check.match in seen:\n                # Cycle found\n                return True", "            if check.match in seen:\n                # Cycle found\n                return False")], 'C13.CYCLE')
+fire('c13-undef-test-inverted', 'C13',
+     [(POL, "            if check.match not in self.rules:\n                # Undefined rule\n                return True", "            if check.match in self.rules:\n                # Undefined rule\n                return True")], 'C13.UNDEF')
+fire('c13-aggregate-always-true', 'C13',
+     [(POL, "        return not violation", "        return True")], 'C13.AGGREGATE')
+fire('c13-skip-cycle-too', 'C13',
+     [(POL, "            if self._cycle_check(check):\n                cyclic_checks.append(name)", "            if not self.skip_undefined_check and self._cycle_check(check):\n                cyclic_checks.append(name)")], 'C13.AGGREGATE')
+fire('c13-validator-literal-bang', 'C13',
+     [(GEN, "        if str(enforcer.rules[name]) == '!' and unparsed_policies[name] != '!':", "        if str(enforcer.rules[name]) == '!':")], 'C13.VALIDATOR')
+fire('c13-validator-no-status', 'C13',
+     [(GEN, "        print('Invalid rules found')\n        return_code = 1", "        print('Invalid rules found')")], 'C13.VALIDATOR')
+fire('c13-validator-unknown-ok', 'C13',
+     [(GEN, "            print('Unknown rule found in policy file:', name)\n            return_code = 1", "            print('Unknown rule found in policy file:', name)")], 'C13.VALIDATOR')
+silent('c13-generic-child-discovery', 'C13',
+       [(POL, """        # A NotCheck wraps a single rule.
+        if isinstance(check, NotCheck):
+            return self._undefined_check(check.rule)
+
+        # An AndCheck or OrCheck is composed of multiple rules so check
+        # each of those.
+        rules = getattr(check, 'rules', None)
+        if rules:
+            for rule in rules:
+                if self._undefined_check(rule):
+                    return True
+        return False""", """        child = getattr(check, 'rule', None)
+        if child is not None:
+            if self._undefined_check(child):
+                return True
+        rules = getattr(check, 'rules', None)
+        if rules:
+            for rule in rules:
+                if self._undefined_check(rule):
+                    return True
+        return False""")])
